@@ -516,7 +516,8 @@ theorem reentrant_iterator_logs_typeerror (st : IterState) (v : Val) (kd : CmdKi
   have hsome : ∃ x, st.spec.items[st.pos]? = some x := by
     rw [hp]; exact ⟨st.spec.items[1], by simp [hl]⟩
   obtain ⟨x, hx⟩ := hsome
-  simp [iterNext, hk, hp, hl, hg, delegate_reentry_typeerror, hx, hp ▸ hx]
+  simp [iterNext, hk, hp, hl, hg, delegate_reentry_typeerror]
+  split <;> rfl
 
 /-- A value yielded by the delegate passes through unchanged and the generator stays suspended, still delegating;
 when the delegate is done its result value becomes the value of the `yield*` expression. -/
@@ -646,5 +647,46 @@ example (v : Val) (env : List Val) (k : List Frame) (x : Nat) (cb : List Stmt) (
     ∃ env', step { ctl := .abrupt (.thr v), env := env, k := .tryK (some (x, cb)) fin :: k }
       = .cont { ctl := .exec cb, env := env', k := (Link.specAfterThrow v (.tryK (some (x, cb)) fin :: k)).getD [] } [] :=
   ⟨_, rfl⟩
+
+end GojaModel.C09
+
+namespace GojaModel.C09
+
+/-- An iterator whose `next()` throws: in a for-of the loop is abandoned with that exception and the iterator is NOT
+closed (§14.7.5.7: IteratorStep's abrupt completion is returned as is); under `yield*` the exception is thrown at the
+`yield*` point. -/
+theorem forof_next_throw_does_not_close (l : Label) (x : Nat) (it : IterState) (body : List Stmt) (env : List Val)
+    (k : List Frame) (ev : List Event) (e : Val) (h : iterNext it .undef = (ev, .threw e)) :
+    step { ctl := .forOfGo l x it body, env := env, k := k } = .cont { ctl := .abrupt (.thr e), env := env, k := k } ev := by
+  simp [step, h]
+
+theorem delegate_next_throw_is_thrown_in_body (it : IterState) (c : Conf) (v : Val) (ev : List Event) (e : Val)
+    (h : iterNext it v = (ev, .threw e)) :
+    delegCmd it ⟨.next, v⟩ c = .cont { c with ctl := .abrupt (.thr e) } ev := by
+  simp [delegCmd, h]
+
+/-- Mechanism witness for the unrepaired finding G (known_findings.d/C09.json): while a `yield*` delegate's method runs,
+goja's generator object is still in state suspendedYield (func.go `tryCallDelegated` is entered before
+`g.state = genStateExecuting`), and in that state `validate()` lets every driver command through — it is NOT rejected,
+whereas the spec (the generator is running) rejects it: `delegate_reentry_typeerror`. -/
+theorem yield_star_delegate_state_witness (cmd : Cmd) :
+    genPre .susp cmd ≠ .reject ∧ genPre .executing cmd = .reject := by
+  constructor
+  · cases cmd with | mk kd p => cases kd <;> simp [genPre]
+  · rfl
+
+end GojaModel.C09
+
+namespace GojaModel.C09
+
+/-- State-level refinement of return dispatch: after `enterNextFinallyFrame` the try stack carries the arming pattern of
+the caller's frames followed by the layout of the spec continuation after the spec's unwinding of the return completion
+entered the innermost pending finally block (frames above it popped, the entered frame with both handlers disarmed). -/
+theorem mech_return_dispatch_refines_spec_state (v : Val) (spOf : Nat → Nat) (f : Mech.TryFrame → Mech.TryFrame) (C : Nat)
+    (hf : ∀ tf, (f tf).finallyPos = tf.finallyPos ∧ (f tf).callStackLen = C ∧ (f tf).catchPos = tf.catchPos)
+    (k k' : List Frame) (vm : Mech.VM) (lo : List Mech.TryFrame) (hC : vm.callStack.length = C)
+    (hvm : vm.tryStack = lo ++ (Link.encode spOf k).map f) (hs : Link.specAfterReturn v k = some k') :
+    (Mech.enterNextFinallyFrame [] vm).2.2.tryStack.map Link.arming = (lo ++ (Link.encode spOf k').map f).map Link.arming :=
+  Link.enterNextFinallyFrame_layout_refines_spec v spOf f C hf k vm lo [] k' hC hvm hs
 
 end GojaModel.C09
